@@ -51,6 +51,8 @@ type c13Scn struct {
 	// FailKind: "" generic error, "epipe" (*PathError with EPIPE, the reader went away), "closedpipe" (io.ErrClosedPipe)
 	FailKind string `json:"fail_kind,omitempty"`
 	DevFull  string `json:"devfull,omitempty"`
+	// EMFile: the first open of this file for writing fails with EMFILE ("too many open files")
+	EMFile string `json:"emfile,omitempty"`
 	// Enum "failat": a write failure at every byte offset of the fault-free standard output
 	Enum string `json:"enum,omitempty"`
 	// pre-existing files
@@ -319,6 +321,12 @@ func (c13Engine) Gen(r *core.Rand, tier string, i int) any {
 		// bare sink; the overlap itself is observed by the scheduler.
 		sc.Output = "bare"
 	}
+	if kids != "none" && sc.Output == "bufio-real" {
+		// Even a silent command started with print | cmd makes os/exec's copier goroutine sit in
+		// bufio.(*Writer).ReadFrom, holding the buffer, while the program writes (F-C13-1):
+		// the real *bufio.Writer is only used in child-free runs.
+		sc.Output = "bufio"
+	}
 	sc.BufSize = core.Pick(r, []int{16, 64, 4096, 65536})
 	sc.CRLF = r.Chance(1, 8)
 	if r.Chance(1, 3) {
@@ -359,6 +367,8 @@ func (c13Engine) Gen(r *core.Rand, tier string, i int) any {
 		sc.FlushFail = true
 	case f < 9:
 		sc.DevFull = core.Pick(r, []string{"A", "B"})
+	case f < 10:
+		sc.EMFile = core.Pick(r, []string{"A", "B", "C"})
 	}
 	if kids == "talkers" && r.Chance(3, 4) {
 		// layer B: straight-line programs under the seeded scheduler (bare sink, fault-free)
@@ -473,19 +483,20 @@ func c13Source(sc *c13Scn) (string, map[int]*c13Op) {
 // ---- reference model of the destinations (trace-driven) ----
 
 type c13Model struct {
-	sc        *c13Scn
-	files     map[string]string
-	open      map[string]string // name -> file | cmd | infile | incmd
-	openTrunc map[string]bool   // file is open and was opened with > (no O_APPEND)
-	skipFile  map[string]bool   // content not determined (another writer wrote into a file open without O_APPEND)
-	spans     map[string]string // command instance name (K1, K1#2, ...) -> bytes printed to it
-	curInst   map[string]string // command name -> instance currently open for output
-	stdout    strings.Builder   // exact expected stdout (program bytes and synchronous system children)
-	stderrE   strings.Builder   // 'e' tokens only
-	runErr    bool              // the run must end with an error at the last started operation
-	vals      map[int]float64   // trace index -> expected return value
-	lines     map[int]string    // trace index -> expected line read
-	status    int
+	sc          *c13Scn
+	files       map[string]string
+	open        map[string]string // name -> file | cmd | infile | incmd
+	emfileFired bool
+	openTrunc   map[string]bool   // file is open and was opened with > (no O_APPEND)
+	skipFile    map[string]bool   // content not determined (another writer wrote into a file open without O_APPEND)
+	spans       map[string]string // command instance name (K1, K1#2, ...) -> bytes printed to it
+	curInst     map[string]string // command name -> instance currently open for output
+	stdout      strings.Builder   // exact expected stdout (program bytes and synchronous system children)
+	stderrE     strings.Builder   // 'e' tokens only
+	runErr      bool              // the run must end with an error at the last started operation
+	vals        map[int]float64   // trace index -> expected return value
+	lines       map[int]string    // trace index -> expected line read
+	status      int
 	// startedBefore[name#n] = number of program stdout bytes printed before that child was started
 	startedAfter map[string]int
 	inst         map[string]int
@@ -575,6 +586,12 @@ func (m *c13Model) apply(idx int, e c13Entry, op *c13Op, complete bool) {
 				m.runErr = true
 				return
 			case "":
+				if op.Dest == m.sc.EMFile && !m.emfileFired {
+					// the open fails: the run ends with an error, nothing is truncated or written
+					m.emfileFired = true
+					m.runErr = true
+					return
+				}
 				m.open[op.Dest] = "file"
 				m.openTrunc[op.Dest] = op.Redir == ">"
 				if onDevFull {
@@ -759,6 +776,10 @@ func c13Exec(sc *c13Scn, src string, ops map[int]*c13Op, failAt int, log *core.L
 	_ = fs.Put("recs", []byte(recs.String()))
 	if sc.DevFull != "" {
 		fs.Plan[sc.DevFull] = core.FaultDevFull
+	}
+	if sc.EMFile != "" {
+		fs.Plan[sc.EMFile] = core.FaultEMFILE
+		fs.Once[sc.EMFile] = true
 	}
 	// The sink does not log single writes: child output arrives through os/exec copier goroutines
 	// whose chunking is the kernel's business (and, under the scheduler, is logged at release).
@@ -1054,7 +1075,7 @@ func (e c13Engine) Run(scAny any, keep bool) (out core.Outcome) {
 }
 
 func c13Check(sc *c13Scn, src string, ops map[int]*c13Op, failAt int, res *c13Result, out *core.Outcome) *core.Failure {
-	desc := fmt.Sprintf("output=%s/%d crlf=%v fail_at=%d flush_fail=%v devfull=%q pre=%v records=%d\nprogram:\n%s", sc.Output, sc.BufSize, sc.CRLF, failAt, sc.FlushFail, sc.DevFull, sc.Pre, sc.Records, src)
+	desc := fmt.Sprintf("output=%s/%d crlf=%v fail_at=%d flush_fail=%v devfull=%q emfile=%q pre=%v records=%d\nprogram:\n%s", sc.Output, sc.BufSize, sc.CRLF, failAt, sc.FlushFail, sc.DevFull, sc.EMFile, sc.Pre, sc.Records, src)
 	fail := func(oracle, detail string) *core.Failure {
 		return &core.Failure{Oracle: oracle, Detail: detail + "\n" + desc}
 	}
@@ -1147,7 +1168,7 @@ func c13Check(sc *c13Scn, src string, ops map[int]*c13Op, failAt int, res *c13Re
 		if (sinkFailed || sc.DevFull != "" || epipeProne) && (op.Kind == "fflushall" || op.Kind == "fflush") {
 			continue // whether a flush to a command that never reads fails depends on when it exits
 		}
-		if sinkFailed && op.Kind == "system" {
+		if sinkFailed && (op.Kind == "system" || (op.Kind == "close" && c13Emits(sc.Cmds[op.Name]) != "")) {
 			continue // the child's output could not be delivered: status is -1 or a SIGPIPE death
 		}
 		if e.Val != want {
@@ -1439,6 +1460,9 @@ func (c13Engine) Shrink(scAny any) []any {
 	}
 	if sc.DevFull != "" {
 		add(func(c *c13Scn) { c.DevFull = "" })
+	}
+	if sc.EMFile != "" {
+		add(func(c *c13Scn) { c.EMFile = "" })
 	}
 	if sc.HasFail {
 		add(func(c *c13Scn) { c.HasFail = false })
